@@ -21,9 +21,13 @@ pub use product_config::{
 
 /// Common functionality for config file parsing
 pub(crate) fn parse_line(line: &str) -> Option<(String, String)> {
-    let mut parts = line.splitn(2, " = ");
-    let key = parts.next()?.trim();
-    let value = parts.next()?.trim();
+    // "key = value". A key without a value is written "key = " by build() and
+    // arrives here trimmed to "key =": it is kept (with an empty value), not
+    // silently dropped.
+    let (key, value) = match line.split_once(" = ") {
+        Some((key, value)) => (key.trim(), value.trim()),
+        None => (line.strip_suffix(" =")?.trim(), ""),
+    };
 
     // Validate key format
     if is_valid_key(key) {
@@ -42,4 +46,24 @@ pub(crate) fn is_valid_key(key: &str) -> bool {
 /// Validate MD5 hash format (32 hex characters)
 pub(crate) fn is_valid_md5_hex(hash: &str) -> bool {
     hash.len() == 32 && hash.chars().all(|c| c.is_ascii_hexdigit())
+}
+
+#[cfg(test)]
+mod tests {
+    use super::parse_line;
+
+    #[test]
+    fn test_parse_line_keeps_key_without_value() {
+        assert_eq!(
+            parse_line("root = abc def"),
+            Some(("root".to_string(), "abc def".to_string()))
+        );
+        // what build() writes for a key whose value list is empty, trimmed
+        assert_eq!(
+            parse_line("patch-config ="),
+            Some(("patch-config".to_string(), String::new()))
+        );
+        assert_eq!(parse_line("no separator"), None);
+        assert_eq!(parse_line("="), None);
+    }
 }
